@@ -91,4 +91,18 @@ mod verif_proofs {
         vk_cover!(adv as i32 - lsb as i32 - ba < i16::MIN as i32, "clamp reached");
         std::mem::forget(m);
     }
+
+    /// maxp composite maxima are accumulated per field: the running maximum of (points, contours, depth) is the field-wise
+    /// maximum, not the "largest" glyph under some ordering of the triple
+    #[cfg_attr(kani, kani::proof)]
+    #[cfg_attr(kani, kani::unwind(3))]
+    pub(super) fn c17_glyph_limits_max_per_field() {
+        let a = GlyphLimits { max_points: vk::any_u16(), max_contours: vk::any_u16(), max_depth: vk::any_u16() };
+        let b = GlyphLimits { max_points: vk::any_u16(), max_contours: vk::any_u16(), max_depth: vk::any_u16() };
+        let m = a.max(b);
+        assert!(m.max_points == a.max_points.max(b.max_points), "VK_ASSERT glyph_limits_max_points");
+        assert!(m.max_contours == a.max_contours.max(b.max_contours), "VK_ASSERT glyph_limits_max_contours");
+        assert!(m.max_depth == a.max_depth.max(b.max_depth), "VK_ASSERT glyph_limits_max_depth");
+        vk_cover!(a.max_points > b.max_points && a.max_contours < b.max_contours && a.max_depth < b.max_depth, "maxima come from different glyphs");
+    }
 }
